@@ -32,7 +32,8 @@ SYSTEMS = {
 
 UNIVERSE = [("step", 1), ("step", 3), ("step_nobest", 2), ("step_broyden", 2), ("solve",), ("solve_n", 1),
             ("reload", "first"), ("reload", "mid"), ("reload", "last"), ("tag", "A"),
-            ("disable_vary", 0), ("enable_vary", 0), ("disable_target", 0), ("enable_target", 0), ("clear_log",)]
+            ("disable_vary", 0), ("enable_vary", 0), ("disable_target", 0), ("enable_target", 0), ("clear_log",),
+            ("tune", 0)]
 
 
 class System(simple.SimpleSystem):
@@ -45,7 +46,7 @@ class System(simple.SimpleSystem):
         self.universe = list(UNIVERSE)
         F = O.FAMILIES[self.spec["fam"]]
         if F["nk"] < 2:
-            self.universe = [o for o in self.universe if o[0] not in ("disable_vary", "enable_vary")]
+            self.universe = [o for o in self.universe if o[0] not in ("disable_vary", "enable_vary", "tune")]
         if F["nt"] < 2:
             self.universe = [o for o in self.universe if o[0] not in ("disable_target", "enable_target")]
 
@@ -100,6 +101,13 @@ class System(simple.SimpleSystem):
             opt.enable(target=[op[1]])
         elif k == "clear_log":
             opt.clear_log()
+        elif k == "tune":
+            # the user re-tunes a knob by hand (a plain write to the knob container), staying inside the limits
+            name = p.kn[op[1]]
+            v = dict.__getitem__(p.knobs, name) + 0.125
+            if p.limits is not None and v > p.limits[op[1]][1]:
+                v = p.limits[op[1]][0] + 0.0625
+            p.knobs[name] = v
         else:
             raise ValueError(op)
 
@@ -131,7 +139,8 @@ class System(simple.SimpleSystem):
                 "solve_n": lambda: f"opt.solve(n_steps={op[1]})", "reload": lambda: f"opt.reload(<{op[1]} row>)",
                 "tag": lambda: f"opt.tag({op[1]!r})", "disable_vary": lambda: f"opt.disable(vary=[{op[1]}])",
                 "enable_vary": lambda: f"opt.enable(vary=[{op[1]}])", "disable_target": lambda: f"opt.disable(target=[{op[1]}])",
-                "enable_target": lambda: f"opt.enable(target=[{op[1]}])", "clear_log": lambda: "opt.clear_log()"}[k]()
+                "enable_target": lambda: f"opt.enable(target=[{op[1]}])", "clear_log": lambda: "opt.clear_log()",
+                "tune": lambda: f"knob {op[1]} re-tuned by hand: container value += 0.125"}[k]()
 
     def issue(self, hist, op, what, detail=None, kind="violation", finding=None):
         it = super().issue(hist, op, what, detail, kind, finding)
@@ -163,6 +172,20 @@ class System(simple.SimpleSystem):
                                                    f"recorded target mask {r['target_active']!r} give {pen!r}"))
                 return issues
         k = op[0]
+        # a knob that is disabled is never changed by a step (C10's clause, here over call sequences): steps of any outcome, and a
+        # solve() that returns normally (a failing solve() restores iteration 0 by design)
+        if k in ("step", "step_nobest", "step_broyden") or (k in ("solve", "solve_n") and exc is None):
+            kv = p.knob_values()
+            for i, (act, a, b) in enumerate(zip(pre["vflags"], pre["knobs"], kv)):
+                if not act and a != b:
+                    issues.append(self.issue(hist, op, f"knob {i} is disabled but the call changed it from {a!r} to {b!r}"))
+                    return issues
+            for r_i in range(pre["nrows"], len(rows)):
+                for i, act in enumerate(pre["vflags"]):
+                    if not act and rows[r_i]["knobs"][i] != pre["knobs"][i] and rows[r_i]["tag"] != "take_best":
+                        issues.append(self.issue(hist, op, f"log row {r_i} records the disabled knob {i} at {rows[r_i]['knobs'][i]!r}, its value is "
+                                                           f"{pre['knobs'][i]!r}"))
+                        return issues
         if k == "reload" and exc is None:
             want = pre["reload_row"]
             unit = self.spec.get("kw") is None
